@@ -191,6 +191,15 @@ def _match(skeleton, text, what):
 
 
 S = r"\s*"
+
+
+def _col_row(body, access, what):
+    """`let col = <e>; let row = <e>; <access>` with the two (independent) lets in either order"""
+    m = re.fullmatch(r"let\s+col\s*=" + E + r";\s*let\s+row\s*=" + E + r";\s*" + access, body.strip())
+    if m:
+        return m.group(1), m.group(2)
+    m = _match(r"let\s+row\s*=" + E + r";\s*let\s+col\s*=" + E + r";\s*" + access, body, what)
+    return m.group(2), m.group(1)
 G = r"(?:\s*::\s*<[^<>]*(?:<[^<>]*>[^<>]*)*>)?"      # an optional turbofish
 
 
@@ -225,10 +234,18 @@ def parse(src):
     m = _match(E + r"==" + E, _fn_body(inherent, "is_empty", what), "StripedScores::is_empty")
     d["ie_lhs"] = Expr(m.group(1), ("drows", "maxi"), "is_empty lhs").value()
     d["ie_rhs"] = Expr(m.group(2), ("drows", "maxi"), "is_empty rhs").value()
-    m = _match(r"self\s*\.\s*data\s*\.\s*resize\s*\(" + E + r"\)\s*;\s*self\s*\.\s*max_index\s*=" + E + r";",
-               _fn_body(inherent, "resize", what), "StripedScores::resize")
-    d["rs_rows"] = Expr(m.group(1), ("rows", "max_index"), "resize rows").value()
-    d["rs_max"] = Expr(m.group(2), ("rows", "max_index"), "resize max_index").value()
+    rs = _fn_body(inherent, "resize", what)
+    r_data = r"self\s*\.\s*data\s*\.\s*resize\s*\(" + E + r"\)\s*;"
+    r_max = r"self\s*\.\s*max_index\s*=" + E + r";"
+    m = re.fullmatch(r_data + S + r_max, rs.strip())
+    if m:
+        rows_e, max_e = m.group(1), m.group(2)
+    else:
+        # the two statements are independent: the other order is the same function
+        m = _match(r_max + S + r_data, rs, "StripedScores::resize")
+        rows_e, max_e = m.group(2), m.group(1)
+    d["rs_rows"] = Expr(rows_e, ("rows", "max_index"), "resize rows").value()
+    d["rs_max"] = Expr(max_e, ("rows", "max_index"), "resize max_index").value()
     d["of"] = Expr(_fn_body(inherent, "offset", what), ("mcrow", "mccol", "drows"), "offset").value()
     _match(r"Iter\s*::\s*new\s*\(\s*self\s*\)", _fn_body(inherent, "iter", what), "StripedScores::iter")
     _match(r"self\s*\.\s*iter\s*\(\s*\)\s*\.\s*cloned\s*\(\s*\)\s*\.\s*collect" + G + r"\s*\(\s*\)\s*\.\s*into\s*\(\s*\)",
@@ -241,22 +258,27 @@ def parse(src):
            _fn_body(into, "from", "impl From<StripedScores> for Vec"), "From<StripedScores> for Vec")
 
     ix = _impl_bodies(src, r"impl\s*<[^{]*>\s*Index\s*<\s*usize\s*>\s*for\s+StripedScores\s*<[^{]*\{", "impl Index<usize> for StripedScores")
-    m = _match(r"let\s+col\s*=" + E + r";\s*let\s+row\s*=" + E + r";\s*&\s*self\s*\.\s*data\s*\[\s*row\s*\]\s*\[\s*col\s*\]",
-               _fn_body(ix, "index", "impl Index<usize>"), "Index::index")
-    d["ix_col"] = Expr(m.group(1), ("index", "drows"), "index col").value()
-    d["ix_row"] = Expr(m.group(2), ("index", "drows", "col"), "index row").value()
+    col_e, row_e = _col_row(_fn_body(ix, "index", "impl Index<usize>"),
+                            r"&\s*self\s*\.\s*data\s*\[\s*row\s*\]\s*\[\s*col\s*\]", "Index::index")
+    d["ix_col"] = Expr(col_e, ("index", "drows"), "index col").value()
+    d["ix_row"] = Expr(row_e, ("index", "drows"), "index row").value()
 
     it = _impl_bodies(src, r"impl\s*<\s*'a\s*,[^{]*>\s*Iter\s*<\s*'a\s*,[^{]*\{", "impl Iter")
-    m = _match(r"let\s+end\s*=" + E + r"\.\s*min\s*\(" + E + r"\)\s*;\s*let\s+indices\s*=" + E + r"\.\.\s*end\s*;\s*"
-               r"Self\s*\{\s*scores\s*,\s*indices\s*,?\s*\}", _fn_body(it, "new", "impl Iter"), "Iter::new")
+    nb = _fn_body(it, "new", "impl Iter").strip()
+    tail = (r"(?:let\s+indices\s*=" + E + r"\.\.\s*end\s*;\s*Self\s*\{\s*scores\s*,\s*indices\s*,?\s*\}"
+            r"|Self\s*\{\s*scores\s*,\s*indices\s*:" + E + r"\.\.\s*end\s*,?\s*\})")
+    m = re.fullmatch(r"let\s+end\s*=" + E + r"\.\s*min\s*\(" + E + r"\)\s*;\s*" + tail, nb)
+    if not m:
+        m = _match(r"let\s+end\s*=\s*(?:std\s*::\s*cmp|core\s*::\s*cmp|usize)\s*::\s*min\s*\(" + E + r"," + E + r"\)\s*;\s*" + tail,
+                   nb, "Iter::new")
     base = ("maxi", "drows", "columns")
     d["it_end_a"] = Expr(m.group(1), base, "Iter::new end").value()
     d["it_end_b"] = Expr(m.group(2), base, "Iter::new end").value()
-    d["it_lo"] = Expr(m.group(3), base, "Iter::new start").value()
-    m = _match(r"let\s+col\s*=" + E + r";\s*let\s+row\s*=" + E + r";\s*&\s*self\s*\.\s*scores\s*\.\s*data\s*\[\s*row\s*\]\s*\[\s*col\s*\]",
-               _fn_body(it, "get", "impl Iter"), "Iter::get")
-    d["ig_col"] = Expr(m.group(1), ("i", "drows"), "Iter::get col").value()
-    d["ig_row"] = Expr(m.group(2), ("i", "drows", "col"), "Iter::get row").value()
+    d["it_lo"] = Expr(m.group(3) or m.group(4), base, "Iter::new start").value()
+    col_e, row_e = _col_row(_fn_body(it, "get", "impl Iter"),
+                            r"&\s*self\s*\.\s*scores\s*\.\s*data\s*\[\s*row\s*\]\s*\[\s*col\s*\]", "Iter::get")
+    d["ig_col"] = Expr(col_e, ("i", "drows"), "Iter::get col").value()
+    d["ig_row"] = Expr(row_e, ("i", "drows"), "Iter::get row").value()
 
     itr = _impl_bodies(src, r"impl\s*<[^{]*>\s*Iterator\s+for\s+Iter\s*<[^{]*\{", "impl Iterator for Iter")
     _match(r"self\s*\.\s*indices\s*\.\s*next\s*\(\s*\)\s*\.\s*map\s*\(\s*\|\s*i\s*\|\s*self\s*\.\s*get\s*\(\s*i\s*\)\s*\)",
@@ -298,7 +320,7 @@ def render(d):
     A("")
     A("(* Index<usize>::index: let col = <col>; let row = <row>; &self.data[row][col] *)")
     A("Definition ix_col (index drows : nat) : nat := %s." % d["ix_col"])
-    A("Definition ix_row (index drows col : nat) : nat := %s." % d["ix_row"])
+    A("Definition ix_row (index drows : nat) : nat := %s." % d["ix_row"])
     A("")
     A("(* Iter::new: let end = <a>.min(<b>); let indices = <lo>..end; *)")
     A("Definition it_end_a (maxi drows columns : nat) : nat := %s." % d["it_end_a"])
@@ -307,7 +329,7 @@ def render(d):
     A("")
     A("(* Iter::get: let col = <col>; let row = <row>; &self.scores.data[row][col] *)")
     A("Definition ig_col (i drows : nat) : nat := %s." % d["ig_col"])
-    A("Definition ig_row (i drows col : nat) : nat := %s." % d["ig_row"])
+    A("Definition ig_row (i drows : nat) : nat := %s." % d["ig_row"])
     A("")
     return "\n".join(L)
 
